@@ -1,10 +1,12 @@
 /* C18: usecs_to_timeval / timeval_to_usecs.  The function text is x_timeval.c (cut from src/Time.cc on every run). */
 #include "contracts/C18_timeval.h"
+#include "spec/C18_arith.h"
 #include "x_timeval.c"
 int verif_exc;
+long g_tv_sec, g_tv_usec;
 
 void h_usecs_to_timeval(void) { uint64_t in_usecs; usecs_to_timeval(in_usecs); VERIF_REACH(); }
-void h_timeval_to_usecs(void) { struct timeval* tv; timeval_to_usecs(tv); VERIF_REACH(); }
+void h_timeval_to_usecs(void) { struct timeval* tv; long in_sec, in_usec; g_tv_sec = in_sec; g_tv_usec = in_usec; timeval_to_usecs(tv); VERIF_REACH(); }
 
 /* inverse laws, over the contracts (both callees replaced by their contracts) */
 void l_roundtrip_usecs(void) {
@@ -13,6 +15,7 @@ void l_roundtrip_usecs(void) {
   struct timeval* tv = malloc(sizeof(struct timeval));
   __CPROVER_assume(tv != 0);
   *tv = usecs_to_timeval(in_usecs);
+  g_tv_sec = tv->tv_sec; g_tv_usec = tv->tv_usec;
   uint64_t back = timeval_to_usecs(tv);
   __CPROVER_assert(back == in_usecs, "timeval_to_usecs(usecs_to_timeval(u)) == u");
   VERIF_REACH();
@@ -22,9 +25,12 @@ void l_roundtrip_timeval(void) {
   __CPROVER_assume(TV_IN_DOMAIN(in_sec, in_usec));                      /* the domain of the law: normalised timevals (tv_usec < 10^6) up to 2^63 us */
   struct timeval* tv = malloc(sizeof(struct timeval));
   __CPROVER_assume(tv != 0);
-  tv->tv_sec = in_sec; tv->tv_usec = in_usec;
+  tv->tv_sec = in_sec; tv->tv_usec = in_usec; g_tv_sec = in_sec; g_tv_usec = in_usec;
   uint64_t u = timeval_to_usecs(tv);
   struct timeval back = usecs_to_timeval(u);
+  c18_lemma_divmod_unique((uint64_t)back.tv_sec, (uint64_t)back.tv_usec, (uint64_t)in_sec, (uint64_t)in_usec);   /* ghost: lemma, bound to its contract */
   __CPROVER_assert(back.tv_sec == in_sec && back.tv_usec == in_usec, "usecs_to_timeval(timeval_to_usecs(tv)) == tv");
   VERIF_REACH();
 }
+
+void h_lemma_divmod_unique(void) { uint64_t in_q1, in_r1, in_q2, in_r2; c18_lemma_divmod_unique(in_q1, in_r1, in_q2, in_r2); VERIF_REACH(); }
